@@ -1033,3 +1033,76 @@ def linear_combination_sum(st, parts, weight_fn, name):
     st.assume(lhs == rhs)
     st.assumptions_used.add("instance of lemmas SumOver.homogeneous/additive/support-extension (%s)" % name)
     return lhs, rhs
+
+
+# ==============================================================================  formula(): Formula argument
+
+def c_formula_class(interp, st, args, kw):
+    """Formula(structure=, name=, density=, natural_density=): records its keywords (units Formula.__init__[...])"""
+    return VObj("FormulaCtor", dict(kw))
+
+
+def _ff_inputs(mode):
+    def mk(st, interp):
+        use_state(st)
+        src = new_formula(st, "compound")
+        kw = {}
+        C = {"src": src, "mode": mode, "snapshot": dict(src.attrs)}
+        for k in ("density", "natural_density"):
+            if k in mode:
+                kw[k] = st.fresh(k, z3.RealSort())
+                st.assume(kw[k] > 0)
+                C[k] = kw[k]
+        return [src], kw, C
+    return mk
+
+
+def _ff_post(st, interp, C, res):
+    if res.outcome == "raise":
+        st.oblige("never-raises", False, kind="raises", info={"exc": res.exc})
+        return
+    r, src, mode = res.value, C["src"], C["mode"]
+    ok = isinstance(r, VObj) and r.cls == "FormulaCtor"
+    st.oblige("post.builds a new Formula", z3.BoolVal(ok))
+    if not ok:
+        return
+    st.oblige("post.same structure as the source formula", z3.BoolVal(r.attrs.get("structure") is src.attrs["structure"]))
+    d, nd = r.attrs.get("density"), r.attrs.get("natural_density")
+    if not mode:
+        st.oblige("post.no density keyword: the source density is inherited",
+                  z3.BoolVal(d is src.attrs["density"] and nd is None))
+    else:
+        if "density" in mode:
+            st.oblige("post.density= keyword wins over the source density", spec.eq_goal(interp, st, d, C["density"]))
+        else:
+            st.oblige("post.only natural_density= given: no isotopic density is passed on (the source density must not override it)",
+                      z3.BoolVal(d is None))
+        if "natural_density" in mode:
+            st.oblige("post.natural_density= keyword is passed on", spec.eq_goal(interp, st, nd, C["natural_density"]))
+    frame_unchanged(st, src, C["snapshot"], "source")
+
+
+U_FORMULA_OF_FORMULA = [Unit("formula(Formula%s)" % ("".join(", %s=" % m for m in mode)), FORMULAS + ".formula", _ff_inputs(mode), _ff_post,
+                             contracts={FORMULAS + ".Formula": c_formula_class}, inline={CORE + ".isatom"},
+                             replay={"module": "c12", "task": "replay"})
+                        for mode in ((), ("density",), ("natural_density",))]
+
+
+# ==============================================================================  Formula.hill
+
+def _hill_post(st, interp, C, res):
+    if res.outcome == "raise":
+        st.oblige("never-raises (the Hill form depends on the atoms only)", False, kind="raises", info={"exc": res.exc})
+        return
+    r = res.value
+    ok = isinstance(r, VObj) and "__atoms__" in r.attrs
+    st.oblige("post.hill is formula(atoms of self)", z3.BoolVal(ok))
+    if ok:
+        st.oblige("post.Hill form has exactly the atom counts of the formula",
+                  spec.eq_goal(interp, st, r.attrs["__atoms__"], denotation_map(st, C["S"])))
+    frame_unchanged(st, C["self"], C["snapshot"])
+
+
+U_HILL = Unit("Formula.hill", F + "hill", _self_inputs(), _hill_post,
+              contracts=dict(CALLEE, **{FORMULAS + ".formula": c_formula_from_dict}),
+              replay={"module": "c19", "task": "replay"})
